@@ -158,6 +158,14 @@ def run(tier):
                 h.shape_name, h.oa, h.sched, cs, verdict, sorted(terms[k])), rp)
         for complaint in judge(h.shape_name, rule, unrec, cs, verdict):
             chk.violation(key_for(h.shape_name, rule, "real"), "real run: %s outcomes=%s schedule=%s: %s" % (h.shape_name, h.oa, h.sched, complaint), rp)
+    # the shape expansion and the graph the real code builds must have the same edges; a difference makes the real controller
+    # schedule differently from the specification, which the trace validation above reports - if it did not, the shapes
+    # (not the code) are suspect: machinery error
+    drifted = [h for h in runs if getattr(h, "drift", None)]
+    chk.cov["runs_with_graph_edge_drift"] = len(drifted)
+    if drifted and not chk.violations and not chk.known_hit:
+        raise MachineryError("the real workflow graph differs from the shape expansion but no run was rejected: %s %s" % (
+            drifted[0].shape_name, drifted[0].drift))
     chk.cov["real_runs_with_external_kill_validated"] = killed_runs
     chk.cov["real_cases_with_more_than_one_outcome"] = sum(1 for v in per_case.values() if len(v) > 1)
     # how much of what the model allows did the sampled schedules of the real code actually reach?
